@@ -194,6 +194,13 @@ def check(repo, rep):
     for l in small:
         g = norm_cmp(l.conds[-1][0], l.conds[-1][1]) if l.conds else None
         ok = (g is not None and g[2] == ('c', 0) and g[0] == '==') or (l.conds and l.conds[-1][0][0] == 'attr' and l.conds[-1][1] is False) or (g is not None and (g[0], g[2]) in (('<', ('c', 1)), ('<=', ('c', 0))))
+        if not ok and l.conds:
+            from .c10 import small_block_guard_ok
+            sem_ = small_block_guard_ok(l.conds[-1][0], l.conds[-1][1], lambda x: (x[0] == 'attr' and x[1] == ('self',) and 'block_size' in x[2]) or P.call('int', P.prod(P.param('block_dur'), P.role('sampling_rate')))(x))
+            if sem_ is None:
+                rep.unknown('_FixedSizeAudioReader.__init__: the condition under which TooSmallBlockDuration is raised (%s) could not be evaluated' % show(l.conds[-1][0])[:80])
+                continue
+            ok = sem_
         rep.ob('a window shorter than one sample (int(window*rate) == 0) is rejected', ok, cx.where('util', l.node), '_FixedSizeAudioReader.__init__:TooSmallBlockDuration', 'raised under %s' % (show(l.conds[-1][0]) if l.conds else None))
     rep.ob('a window shorter than one sample is rejected', bool(small), cx.where('util', cx.fn('util', '_FixedSizeAudioReader.__init__')), '_FixedSizeAudioReader.__init__:no-too-small-guard')
     from .c10 import check_reported_durations
